@@ -1,5 +1,6 @@
 import EupsModel.Model.FsEff
 set_option linter.unusedSimpArgs false
+set_option linter.unusedVariables false
 /-! Helper lemmas about the file-system effect model (C08). -/
 namespace EupsModel.FsEff
 
@@ -1130,5 +1131,265 @@ theorem wf_not_garbled (fs : Fs) (hwf : WF fs) (r : RPath) : seenOf (fs.get (.ma
     | empty => cases r <;> simp [RecOK] at this
     | part => cases r <;> simp [RecOK] at this
     | complete c => exact seenOf_complete_ne_garbled c
+
+/-! ## The shape of a crash state, and the reader's listing -/
+
+/-- effects that only write to / close the temporary file of `r` -/
+def TmpOnly (r : RPath) (e : Eff) : Prop := (∃ c l, e = .write (.tmp r) c l) ∨ e = .close (.tmp r)
+
+theorem tmp_effects_shape (d : List Id) (l : List (FPath × FileC)) (r : RPath) (h : ∀ x ∈ l, x.1 ≠ FPath.tmp r)
+    (es : List Eff) (hes : ∀ e ∈ es, TmpOnly r e) :
+    ∀ a : FileC, ∃ y, applyAll ⟨d, l ++ [(.tmp r, a)]⟩ es = ⟨d, l ++ [(.tmp r, y)]⟩ := by
+  induction es with
+  | nil => intro a; exact ⟨a, rfl⟩
+  | cons e rest ih =>
+    intro a
+    have hrest := ih (fun e' he' => hes e' (by simp [he']))
+    rcases hes e (by simp) with ⟨c, lst, he⟩ | he
+    · subst he
+      obtain ⟨y, hy⟩ := hrest (if lst then .complete c else .part)
+      refine ⟨y, ?_⟩
+      simp only [applyAll, List.foldl_cons, applyEff, Fs.set, setFile_append_last l _ _ _ h] at hy ⊢
+      exact hy
+    · subst he
+      obtain ⟨y, hy⟩ := hrest a
+      exact ⟨y, by simpa [applyAll, applyEff] using hy⟩
+
+theorem writes_tmpOnly (r : RPath) (c : Content) : ∀ n, ∀ e ∈ writes (.tmp r) c n, TmpOnly r e
+  | 0, e, he => by simp [writes] at he
+  | 1, e, he => by simp [writes] at he; subst he; exact Or.inl ⟨_, _, rfl⟩
+  | n + 2, e, he => by
+    simp only [writes, List.mem_cons] at he
+    rcases he with h | h
+    · subst h; exact Or.inl ⟨_, _, rfl⟩
+    · exact writes_tmpOnly r c (n + 1) e h
+
+/-- before its last effect, a step of the repaired writers has left the state as it was, except possibly for its
+own temporary file at the end of the listing -/
+theorem prefix_shape (fs : Fs) (hnt : NoTmp fs) (s : Step) (k : Nat) (hk : k < (expand true fs s).length) :
+    applyAll fs ((expand true fs s).take k) = fs ∨
+    ∃ r y, applyAll fs ((expand true fs s).take k) = ⟨fs.dirs, fs.files ++ [(.tmp r, y)]⟩ := by
+  cases s with
+  | mkdir p => simp [expand] at hk; subst hk; left; rfl
+  | rmdir p => simp [expand] at hk; subst hk; left; rfl
+  | remove r => simp [expand] at hk; subst hk; left; rfl
+  | put r c =>
+    cases k with
+    | zero => left; rfl
+    | succ k' =>
+      right
+      obtain ⟨d, l⟩ := fs
+      have h : ∀ x ∈ l, x.1 ≠ FPath.tmp r := fun x hx => hnt x hx r
+      simp only [expand, if_true] at hk ⊢
+      have hsplit : [Eff.creat (.tmp r)] ++ writes (.tmp r) c (chunks c) ++ [Eff.close (.tmp r), Eff.rename (.tmp r) (.main r)]
+          = Eff.creat (.tmp r) :: ((writes (.tmp r) c (chunks c) ++ [Eff.close (.tmp r)]) ++ [Eff.rename (.tmp r) (.main r)]) := by
+        simp
+      rw [hsplit] at hk ⊢
+      simp only [List.take_succ_cons, applyAll, List.foldl_cons, applyEff, Fs.set, setFile_notin l _ _ h]
+      have hk' : k' ≤ (writes (.tmp r) c (chunks c) ++ [Eff.close (.tmp r)]).length := by
+        simp at hk ⊢; omega
+      rw [List.take_append_of_le_length hk']
+      have hto : ∀ e ∈ (writes (.tmp r) c (chunks c) ++ [Eff.close (.tmp r)]).take k', TmpOnly r e := by
+        intro e he
+        have := List.mem_of_mem_take he
+        rcases List.mem_append.mp this with h1 | h1
+        · exact writes_tmpOnly r c _ e h1
+        · simp at h1; subst h1; exact Or.inr rfl
+      obtain ⟨y, hy⟩ := tmp_effects_shape d l r h _ hto .empty
+      exact ⟨r, y, by simpa [applyAll] using hy⟩
+
+/-- **Shape of a crash state**: the state after some whole number of record-level steps, plus possibly the
+temporary file of the step that was under way. -/
+theorem crash_shape (ss : List Step) : ∀ (fs : Fs), NoTmp fs → ∀ (k : Nat),
+    ∃ j, j ≤ ss.length ∧
+      (applyAll fs ((expandAll true fs ss).take k) = applySteps fs (ss.take j) ∨
+       ∃ r y, applyAll fs ((expandAll true fs ss).take k) =
+         ⟨(applySteps fs (ss.take j)).dirs, (applySteps fs (ss.take j)).files ++ [(.tmp r, y)]⟩) := by
+  induction ss with
+  | nil => intro fs _ k; exact ⟨0, by simp, Or.inl (by simp [expandAll, applyAll, applySteps])⟩
+  | cons s rest ih =>
+    intro fs hnt k
+    simp only [expandAll]
+    by_cases hk : k < (expand true fs s).length
+    · refine ⟨0, by simp, ?_⟩
+      rw [List.take_append_of_le_length (Nat.le_of_lt hk)]
+      simpa [applySteps] using prefix_shape fs hnt s k hk
+    · have hk' : (expand true fs s).length ≤ k := Nat.le_of_not_lt hk
+      obtain ⟨j, hj, hshape⟩ := ih (applyStep fs s) (NoTmp_applyStep fs hnt s) (k - (expand true fs s).length)
+      refine ⟨j + 1, by simp [hj], ?_⟩
+      rw [List.take_append, List.take_of_length_le hk', applyAll_append, expand_net fs hnt s]
+      simpa [applySteps] using hshape
+
+/-- every record file is complete and of its kind -/
+def EntryGood : FPath × FileC → Prop
+  | (.main (.vfile _ _), .complete (.ver _)) => True
+  | (.main (.cfile _ _), .complete (.chain _)) => True
+  | (.main _, _) => False
+  | _ => True
+
+def MainGood (fs : Fs) : Prop := ∀ x ∈ fs.files, EntryGood x
+
+theorem recordsComplete_of_mainGood (fs : Fs) (h : MainGood fs) : recordsComplete fs = true := by
+  unfold recordsComplete
+  rw [List.all_eq_true]
+  intro x hx
+  have := h x hx
+  obtain ⟨path, c⟩ := x
+  cases path with
+  | main r =>
+    cases r with
+    | vfile p v =>
+      cases c with
+      | empty => simp [EntryGood] at this
+      | part => simp [EntryGood] at this
+      | complete cc => cases cc <;> simp_all [EntryGood]
+    | cfile p t =>
+      cases c with
+      | empty => simp [EntryGood] at this
+      | part => simp [EntryGood] at this
+      | complete cc => cases cc <;> simp_all [EntryGood]
+  | tmp r => rfl
+  | stale r i => rfl
+
+theorem mainGood_of_wf (fs : Fs) (h : WF fs) : MainGood fs := by
+  intro x hx
+  have := h.recs x hx
+  obtain ⟨path, c⟩ := x
+  cases path with
+  | main r =>
+    cases r with
+    | vfile p v =>
+      cases c with
+      | empty => simp [RecOK] at this
+      | part => simp [RecOK] at this
+      | complete cc => cases cc <;> simp_all [RecOK, EntryGood]
+    | cfile p t =>
+      cases c with
+      | empty => simp [RecOK] at this
+      | part => simp [RecOK] at this
+      | complete cc => cases cc <;> simp_all [RecOK, EntryGood]
+  | tmp r => simp [EntryGood]
+  | stale r i => simp [EntryGood]
+
+/-- a step writes content of the record's kind -/
+def StepKindOK : Step → Prop
+  | .put (.vfile _ _) (.ver _) => True
+  | .put (.cfile _ _) (.chain _) => True
+  | .put _ _ => False
+  | _ => True
+
+def KindsOK (ss : List Step) : Prop := ∀ s ∈ ss, StepKindOK s
+
+theorem KindsOK.nil : KindsOK [] := by simp [KindsOK]
+theorem KindsOK.append {a b : List Step} (ha : KindsOK a) (hb : KindsOK b) : KindsOK (a ++ b) := by
+  intro s hs
+  rcases List.mem_append.mp hs with h | h
+  · exact ha s h
+  · exact hb s h
+theorem KindsOK.ite (c : Prop) [Decidable c] {a b : List Step} (ha : KindsOK a) (hb : KindsOK b) :
+    KindsOK (if c then a else b) := by
+  split <;> assumption
+theorem kinds_single (s : Step) (h : StepKindOK s) : KindsOK [s] := by
+  intro s' hs; simp at hs; subst hs; exact h
+
+theorem kinds_writeRec_v (fs : Fs) (p v : Id) (es : List VEntry) : KindsOK (writeRec fs (.vfile p v) (.ver es)) := by
+  unfold writeRec
+  exact KindsOK.ite _ (KindsOK.ite _ (kinds_single _ (by simp [StepKindOK])) KindsOK.nil) (kinds_single _ (by simp [StepKindOK]))
+
+theorem kinds_writeRec_c (fs : Fs) (p t : Id) (es : List CEntry) : KindsOK (writeRec fs (.cfile p t) (.chain es)) := by
+  unfold writeRec
+  exact KindsOK.ite _ (KindsOK.ite _ (kinds_single _ (by simp [StepKindOK])) KindsOK.nil) (kinds_single _ (by simp [StepKindOK]))
+
+theorem kinds_dbAssignTag (fs : Fs) (t p v f : Id) : KindsOK (dbAssignTag fs t p v f) := by
+  unfold dbAssignTag; exact KindsOK.ite _ KindsOK.nil (kinds_writeRec_c _ _ _ _)
+
+theorem kinds_dbUnassignTag (fs : Fs) (t p f : Id) : KindsOK (dbUnassignTag fs t p f) := by
+  unfold dbUnassignTag; exact KindsOK.ite _ KindsOK.nil (kinds_writeRec_c _ _ _ _)
+
+theorem kinds_dbDeclare (fs : Fs) (p v f : Id) (tag : Option Id) : KindsOK (dbDeclare fs p v f tag) := by
+  unfold dbDeclare
+  refine KindsOK.append (KindsOK.append ?_ (kinds_writeRec_v _ _ _ _)) ?_
+  · exact KindsOK.ite _ KindsOK.nil (kinds_single _ (by simp [StepKindOK]))
+  · cases tag with
+    | none => exact KindsOK.nil
+    | some t => exact kinds_dbAssignTag _ _ _ _ _
+
+theorem kinds_unassignAll (p f : Id) (ts : List Id) : ∀ fs : Fs, KindsOK (unassignAll p f fs ts) := by
+  induction ts with
+  | nil => intro fs; exact KindsOK.nil
+  | cons t r ih => intro fs; simp only [unassignAll]; exact KindsOK.append (kinds_dbUnassignTag _ _ _ _) (ih _)
+
+theorem kinds_dbUndeclare (fs : Fs) (p v f : Id) : KindsOK (dbUndeclare fs p v f) := by
+  unfold dbUndeclare
+  refine KindsOK.ite _ KindsOK.nil ?_
+  refine KindsOK.append (KindsOK.append ?_ ?_) ?_
+  · exact KindsOK.ite _ (kinds_unassignAll _ _ _ _) KindsOK.nil
+  · exact KindsOK.ite _ (kinds_writeRec_v _ _ _ _) KindsOK.nil
+  · exact KindsOK.ite _ (kinds_single _ (by simp [StepKindOK])) KindsOK.nil
+
+theorem kinds_steps (fs : Fs) (c : Cmd) : KindsOK (steps fs c) := by
+  cases c with
+  | declare p v f tag force =>
+    simp only [steps]
+    refine KindsOK.append (KindsOK.ite _ (kinds_dbDeclare _ _ _ _ _) KindsOK.nil) ?_
+    cases declareTag fs p f tag with
+    | none => exact KindsOK.nil
+    | some t =>
+      simp only
+      refine KindsOK.append ?_ (kinds_dbAssignTag _ _ _ _ _)
+      cases taggedVersion _ t p f with
+      | none => exact KindsOK.nil
+      | some _ => exact kinds_dbUnassignTag _ _ _ _
+  | untag t p f v =>
+    simp only [steps]
+    cases v with
+    | none =>
+      simp only
+      cases taggedVersion fs t p f with
+      | none => exact KindsOK.nil
+      | some _ => exact kinds_dbUnassignTag _ _ _ _
+    | some v =>
+      simp only
+      exact KindsOK.ite _ KindsOK.nil (KindsOK.ite _ (kinds_dbUnassignTag _ _ _ _) KindsOK.nil)
+  | undeclare p v f =>
+    simp only [steps]
+    exact KindsOK.ite _ KindsOK.nil (kinds_dbUndeclare _ _ _ _)
+
+theorem mainGood_applyStep (fs : Fs) (s : Step) (h : MainGood fs) (hs : StepKindOK s) : MainGood (applyStep fs s) := by
+  cases s with
+  | mkdir p => simp only [applyStep, applyEff]; split <;> exact h
+  | rmdir p => simp only [applyStep, applyEff]; split <;> exact h
+  | put r c =>
+    intro x hx
+    rcases mem_setFile _ _ _ _ hx with h' | h'
+    · exact h x h'
+    · subst h'
+      cases r <;> cases c <;> simp_all [StepKindOK, EntryGood]
+  | remove r =>
+    intro x hx
+    exact h x (mem_delFile _ _ _ hx)
+
+theorem mainGood_applySteps (ss : List Step) : ∀ fs : Fs, MainGood fs → KindsOK ss → MainGood (applySteps fs ss) := by
+  induction ss with
+  | nil => intro fs h _; exact h
+  | cons s rest ih =>
+    intro fs h hk
+    simp only [applySteps, List.foldl_cons]
+    exact ih _ (mainGood_applyStep fs s h (hk s (by simp))) (fun s' hs' => hk s' (by simp [hs']))
+
+/-- in every crash state of the repaired writers every record file is complete and of its kind -/
+theorem mainGood_crash (fs : Fs) (hwf : WF fs) (c : Cmd) (k : Nat) : MainGood (crashAt { atomic := true } fs c k) := by
+  obtain ⟨j, _, hshape⟩ := crash_shape (steps fs c) fs hwf.noTmp k
+  have hS : MainGood (applySteps fs ((steps fs c).take j)) :=
+    mainGood_applySteps _ fs (mainGood_of_wf fs hwf) (fun s hs => kinds_steps fs c s (List.mem_of_mem_take hs))
+  unfold crashAt effects
+  rcases hshape with h | ⟨r, y, h⟩
+  · rw [h]; exact hS
+  · rw [h]
+    intro x hx
+    simp only [List.mem_append, List.mem_singleton] at hx
+    rcases hx with h1 | h1
+    · exact hS x h1
+    · subst h1; simp [EntryGood]
 
 end EupsModel.FsEff
